@@ -109,7 +109,12 @@ func sumUTXOs(m map[types.SiacoinOutputID]types.SiacoinElement) (c types.Currenc
 // pre-conditions, and the revert restores outputs and events exactly.
 //
 //verif:harness prop=C06 tier=quick replay=interp require=applied,reverted bounds="wallet store with 0..2 outputs (symbolic values < 2^40); one block with: a miner payout to the wallet or to somebody else; optionally a v2 transaction spending a stored output (alone or jointly with a foreign input before/after it) and/or paying the wallet, optionally claiming siafunds (owner and claim address each the wallet or somebody else); optionally a resolved v2 contract whose host and/or renter output pays the wallet (symbolic values); an ephemeral output"
-func VerifH_C06_block() {
+func VerifH_C06_block() { verifC06Block(false) }
+
+//verif:harness prop=C06 tier=quick replay=interp require=applied,reverted bounds="wallet store with 0..2 outputs; one block with a miner payout and optionally: a v1 transaction spending a stored output, a resolved v1 contract (valid or missed), the foundation subsidy - each paying the wallet or not, symbolic values"
+func VerifH_C06_block_v1() { verifC06Block(true) }
+
+func verifC06Block(v1 bool) {
 	priv := types.NewPrivateKeyFromSeed(make([]byte, 32))
 	addr := types.StandardUnlockHash(priv.PublicKey())
 	other := types.Address{0x99}
@@ -148,7 +153,7 @@ func VerifH_C06_block() {
 		leaf++
 		return types.SiacoinElement{ID: id, StateElement: types.StateElement{LeafIndex: leaf, MerkleProof: []types.Hash256{{0x0b}}}, SiacoinOutput: o, MaturityHeight: maturity}
 	}
-	if vapi.Bool("with-txn") {
+	if !v1 && vapi.Bool("with-txn") {
 		txn := types.V2Transaction{ArbitraryData: []byte{1}}
 		foreign := types.SiacoinElement{ID: types.SiacoinOutputID{0xf0}, StateElement: types.StateElement{LeafIndex: 50}, SiacoinOutput: types.SiacoinOutput{Value: types.NewCurrency64(500), Address: other}}
 		addForeign := func() {
@@ -189,12 +194,37 @@ func VerifH_C06_block() {
 			sces = append(sces, consensus.SiacoinElementDiff{SiacoinElement: claim.Copy(), Created: true})
 		}
 	}
-	if vapi.Bool("with-ephemeral") {
+	var fces []consensus.FileContractElementDiff
+	if v1 && nPre > 1 && vapi.Bool("with-v1-txn") {
+		// a v1 transaction spending the second stored output, paying the wallet or not
+		uc := types.StandardUnlockConditions(priv.PublicKey())
+		v1 := types.Transaction{ArbitraryData: [][]byte{{2}},
+			SiacoinInputs:  []types.SiacoinInput{{ParentID: stored[1].ID, UnlockConditions: uc}},
+			SiacoinOutputs: []types.SiacoinOutput{{Value: types.NewCurrency64(11), Address: pick("v1-pays-wallet")}}}
+		b.Transactions = append(b.Transactions, v1)
+		sces = append(sces, consensus.SiacoinElementDiff{SiacoinElement: stored[1].Copy(), Spent: true})
+		sces = append(sces, consensus.SiacoinElementDiff{SiacoinElement: newElem(v1.SiacoinOutputID(0), v1.SiacoinOutputs[0], 11), Created: true})
+	}
+	if v1 && vapi.Bool("with-v1-resolution") {
+		// a v1 contract resolved (valid or missed) with one payout to the wallet or not
+		fc := types.FileContract{
+			ValidProofOutputs:  []types.SiacoinOutput{{Value: types.NewCurrency64(vapi.UBits("valid-out", 40)), Address: pick("valid-pays-wallet")}},
+			MissedProofOutputs: []types.SiacoinOutput{{Value: types.NewCurrency64(vapi.UBits("missed-out", 40)), Address: pick("missed-pays-wallet")}}}
+		fce := types.FileContractElement{ID: types.FileContractID{0xf1}, StateElement: types.StateElement{LeafIndex: 61}, FileContract: fc}
+		valid := vapi.Bool("v1-valid")
+		fces = append(fces, consensus.FileContractElementDiff{FileContractElement: fce, Resolved: true, Valid: valid})
+		if valid {
+			sces = append(sces, consensus.SiacoinElementDiff{SiacoinElement: newElem(fce.ID.ValidOutputID(0), fc.ValidProofOutputs[0], 155), Created: true})
+		} else {
+			sces = append(sces, consensus.SiacoinElementDiff{SiacoinElement: newElem(fce.ID.MissedOutputID(0), fc.MissedProofOutputs[0], 155), Created: true})
+		}
+	}
+	if !v1 && vapi.Bool("with-ephemeral") {
 		e := newElem(types.SiacoinOutputID{0xe9}, types.SiacoinOutput{Value: types.NewCurrency64(3), Address: addr}, 11)
 		e.StateElement.LeafIndex = types.UnassignedLeafIndex
 		sces = append(sces, consensus.SiacoinElementDiff{SiacoinElement: e, Created: true, Spent: true})
 	}
-	if vapi.Bool("with-resolution") {
+	if !v1 && vapi.Bool("with-resolution") {
 		fc := types.V2FileContract{HostOutput: types.SiacoinOutput{Value: types.NewCurrency64(vapi.UBits("host-out", 40)), Address: pick("host-is-wallet")},
 			RenterOutput: types.SiacoinOutput{Value: types.NewCurrency64(vapi.UBits("renter-out", 40)), Address: pick("renter-is-wallet")}}
 		fce := types.V2FileContractElement{ID: types.FileContractID{0xfc}, StateElement: types.StateElement{LeafIndex: 60}, V2FileContract: fc}
@@ -204,9 +234,13 @@ func VerifH_C06_block() {
 	}
 	bid := b.ID()
 	sces = append(sces, consensus.SiacoinElementDiff{SiacoinElement: newElem(bid.MinerOutputID(0), b.MinerPayouts[0], 155), Created: true})
+	if v1 && vapi.Bool("with-foundation-subsidy") {
+		sces = append(sces, consensus.SiacoinElementDiff{SiacoinElement: newElem(bid.FoundationOutputID(), types.SiacoinOutput{Value: types.NewCurrency64(vapi.UBits("subsidy", 40)), Address: pick("foundation-is-wallet")}, 155), Created: true})
+	}
 	var cau consensus.ApplyUpdate
 	vapi.SetField(&cau, "sces", sces)
 	vapi.SetField(&cau, "v2fces", v2fces)
+	vapi.SetField(&cau, "fces", fces)
 	state := consensus.State{Index: types.ChainIndex{Height: 11, ID: bid}}
 	parent := consensus.State{Index: prevIndex}
 	c06ApplyTag, c06OldLeaves = 0x0b, 100
@@ -256,6 +290,7 @@ func VerifH_C06_block() {
 	var cru consensus.RevertUpdate
 	vapi.SetField(&cru, "sces", rsces)
 	vapi.SetField(&cru, "v2fces", v2fces)
+	vapi.SetField(&cru, "fces", fces)
 	c06RevertTag, c06RevLeaves = 0x0a, 100
 	err = sw.UpdateChainState(tx, []chain.RevertUpdate{{RevertUpdate: cru, Block: b, State: parent}}, nil)
 	vapi.Assert("revert.no-error", err == nil)
